@@ -41,8 +41,8 @@ class TlcResult:
         """names of violated invariants / properties according to TLC"""
         r = re.findall(r"Invariant (\S+) is violated", self.out)
         r += re.findall(r"Action property (\S+) is violated", self.out)
-        if "Temporal properties were violated" in self.out:
-            r.append("<temporal>")
+        t = re.findall(r"Temporal propert(?:y|ies) (.*?)(?:was|were) violated", self.out)
+        r += ["temporal:" + x.strip() for x in t]
         return r
 
 
@@ -123,6 +123,14 @@ class Ctx:
             tail = "\n".join(r.out.splitlines()[-40:])
             raise Inconclusive("TLC did not finish cleanly on %s (rc=%s):\n%s" % (cfg, r.rc, tail))
         return r
+
+    def tlc_many(self, module, cfgs, what=None, timeout=3600, parallel=4, count=True):
+        """several exhaustive runs side by side (one config per property family); returns {cfg: TlcResult}"""
+        from concurrent.futures import ThreadPoolExecutor
+        w = max(2, NCPU // parallel)
+        with ThreadPoolExecutor(max_workers=parallel) as ex:
+            futs = {cfg: ex.submit(self.tlc, module, cfg, w, (), timeout, what, count, None, None, False) for cfg in cfgs}
+            return {cfg: f.result() for cfg, f in futs.items()}
 
     # ---------------------------------------------------------------- Go driver
     def go_env(self):
